@@ -1,5 +1,5 @@
 ------------------------------- MODULE Mutate -------------------------------
-(* Grammar-aware mutations of a valid program, seen as a sequence of tokens on lines (C09, C20): delete, duplicate   *)
+(* Grammar-aware mutations of a valid program, seen as a sequence of tokens on lines (C09, C20): delete, duplicate,  *)
 (* or swap tokens, re-indent a line, truncate.  Positions are abstract (Slots equal fractions of the token          *)
 (* sequence); TLC enumerates every edit script up to MaxEdits edits, the harness applies each script to every base   *)
 (* program.  The invariant states what a script may do to the token count (so that scripts stay small edits).       *)
@@ -7,7 +7,8 @@ EXTENDS Integers, Sequences, FiniteSets, TLC, Json
 
 CONSTANTS Slots, MaxEdits, Emit
 
-Ops == {"delete", "duplicate", "swap", "truncate", "indent", "dedent"}
+Ops == {"delete", "duplicate", "swap", "truncate", "indent", "dedent", "implicit", "bang"}
+\* implicit: the token becomes an implicit argument (`x` -> `?x`); bang: an identifier becomes a macro name (`f` -> `f!`)
 VARIABLES script, delta      \* delta: change of the token count in slots (for the invariant)
 vars == <<script, delta>>
 Init == script = <<>> /\ delta = 0
